@@ -171,6 +171,7 @@ package ch
 //@   ensures len(q.Input) == 0 ==> err == nil && c.blanks == old(c.blanks) {no-input-nothing-sent}
 //@   ensures err == nil && len(q.Input) > 0 ==> c.blanks == old(c.blanks) + 1 {exactly-one-terminator-on-success}
 //@   ensures err != nil ==> c.blanks == old(c.blanks) {no-terminator-after-a-failure}
+//@   ensures wRI(c.writer)
 //@ callsite value:f#2
 //@   assert len(c.writer.vec) == 0 && c.writer.bufOffset == 0 && len(c.writer.buf.Buf) == 0 {block-flushed-before-the-callback-runs-again}
 //@ callsite encodeBlankBlock
@@ -256,3 +257,12 @@ package ch
 //@ loop 0 ()
 //@   modifies all(*c), all(*ctx), all(q.Result), gotException.val, all(q.OnLogs), all(q.OnLog)
 //@   invariant *c != nil && *ctx != nil && c.reader != nil
+
+//@ -- the sending goroutine of Do: the query (with external data and its terminator) is flushed
+//@ -- before input streaming starts, and a successful return leaves nothing pending in the writer
+//@ contract (c *Client) Do$4() (err) props(C02,C09)
+//@   requires *c != nil && *ctx != nil
+//@   modifies all(*c), all(*ctx), all(q.Input), all(q.ExternalData), all(*colInfo)
+//@   ensures err == nil ==> len(c.writer.vec) == 0 && len(c.writer.buf.Buf) == 0 && c.writer.bufOffset == 0 [C02] {nothing-left-pending-on-success}
+//@ callsite (*Client).sendInput
+//@   assert len(c.writer.vec) == 0 && len(c.writer.buf.Buf) == 0 [C02,C09] {query-flushed-before-input-starts}
